@@ -78,6 +78,8 @@ def _sanitize(x, path=()):
                 v = "f0" + v[2:]
             if k == "suit-cose-key-id" and isinstance(v, str) and _lossy_hex(v, True):
                 v = "f0" + v[2:]
+            if k == "ciphertext" and isinstance(v, str) and v[:2].lower() == "f6":
+                v = "f0" + v[2:]  # a ciphertext starting with the CBOR encoding of null is claimed by the SuitNull alternative
             out[k] = _sanitize(v, path + (k,))
         return out
     if isinstance(x, list):
@@ -104,7 +106,15 @@ KNOWN_LOSSY = [
     ("known-lossy/parameter-content-bytes-starting-with-a-cbor-uint", lambda: {"suit-parameter-content": "0505"}),
     ("known-lossy/parameter-content-single-byte-uint", lambda: {"suit-parameter-content": "05"}),
     ("known-lossy/parameter-content-bytes-starting-with-a-cbor-simple-value", lambda: {"suit-parameter-content": "f4aabb"}),
+    ("known-lossy/ciphertext-bytes-starting-with-cbor-null", lambda: {"suit-parameter-encryption-info": {"CoseEncryptTagged": {
+        "protected": {"suit-cose-algorithm-id": "cose-alg-aes-gcm-256"}, "unprotected": {}, "ciphertext": "f6aa", "recipients": []}}}),
 ]
+
+
+def _shown(params):
+    if "suit-parameter-content" in params:
+        return params["suit-parameter-content"]
+    return params["suit-parameter-encryption-info"]["CoseEncryptTagged"]["ciphertext"]
 
 
 def bounded(ctx):
@@ -159,13 +169,13 @@ def bounded(ctx):
         try:
             env1 = _roundtrip(env0, d, "yaml", False, 9)
             import yaml
-            shown = yaml.safe_load(open(f"{d}/e9.yaml"))["SUIT_Envelope_Tagged"]["suit-manifest"]["suit-validate"][0]["suit-directive-override-parameters"]["suit-parameter-content"]
+            shown = _shown(yaml.safe_load(open(f"{d}/e9.yaml"))["SUIT_Envelope_Tagged"]["suit-manifest"]["suit-validate"][0]["suit-directive-override-parameters"])
         except Exception as e:  # noqa: BLE001
             B.fail(label, case, f"{type(e).__name__}: {e}")
             continue
-        want = mk()["suit-parameter-content"]
+        want = _shown(mk())
         if env1 != env0 or shown != want:
-            B.fail(label, case, f"content {want!r} is shown as {shown!r}" + ("" if env1 == env0 else "; " + _diff(env0, env1)))
+            B.fail(label, case, f"byte string {want!r} is shown as {shown!r}" + ("" if env1 == env0 else "; " + _diff(env0, env1)))
     return B.done()
 
 
